@@ -42,9 +42,7 @@ def make_history(case):
         # the finished run is resumed from its final checkpoint by a fresh
         # process (a resubmitted job) and run() is called again: the results
         # it returns are judged like those of any other run
-        h["steps"].append(dict(h["steps"][-1]))
-        h["until_completed"] = False
-        h["stop_after_failed_final"] = True
+        h["steps"].append(dict(h["steps"][-1], final_resume=True))
     return h
 
 
